@@ -259,7 +259,10 @@ func (c16) Gen(seed uint64, run int, tier string) *Plan {
 			ltypes[s]++
 			ltypeK[s] = append(ltypeK[s], kk)
 		case x < 50:
-			if k["exc2"] == 1 {
+			if k["exc2"] == 1 && r.Intn(4) == 0 {
+				// a name that is already taken, together with a route nobody uses yet
+				emit(Action{Kind: "sexc2taken", A: s, B: kk, C: r.Intn(2)})
+			} else if k["exc2"] == 1 {
 				emit(Action{Kind: "sexc2", A: s, B: kk})
 			} else {
 				emit(Action{Kind: "sagent", A: s, B: kk})
@@ -341,6 +344,7 @@ type c16Conn struct {
 	agents map[int]world.ServiceAgentSpec // k -> spec it asked to register
 	ltypes map[int]string                 // k -> listener type name
 	exc2   map[int]string                 // k -> request id
+	taken  map[string]string              // route -> request id of an External-C2 request under a taken name
 }
 
 type c16Req struct {
@@ -371,6 +375,7 @@ type c16Edit struct {
 }
 
 type c16State struct {
+	curGroup []Action // the actions injected together right now
 	w      *world.World
 	res    *Result
 	p      *Plan
@@ -466,6 +471,7 @@ func (c16) Exec(p *Plan, dir string) *Result {
 				n = len(p.Actions) - 1 - i
 			}
 			group = p.Actions[i+1 : i+1+n]
+			st.curGroup = group
 			for _, b := range group {
 				res.FP(b.Kind, b.C%4)
 				st.inject(b, pre)
@@ -476,6 +482,7 @@ func (c16) Exec(p *Plan, dir string) *Result {
 		} else {
 			res.FP(a.Kind, a.C%4)
 			group = []Action{a}
+			st.curGroup = group
 			st.inject(a, pre)
 		}
 		reason := st.settle()
@@ -633,7 +640,7 @@ func (st *c16State) inject(a Action, pre []c16Entry) {
 		if old := st.slots[slot]; old != nil {
 			gen = old.gen + 1
 		}
-		c := &c16Conn{slot: slot, gen: gen, agents: map[int]world.ServiceAgentSpec{}, ltypes: map[int]string{}, exc2: map[int]string{}}
+		c := &c16Conn{slot: slot, gen: gen, agents: map[int]world.ServiceAgentSpec{}, ltypes: map[int]string{}, exc2: map[int]string{}, taken: map[string]string{}}
 		c.sc = w.NewServiceClient(fmt.Sprintf("svc%d.%d", slot, gen))
 		if !c.sc.Dial() {
 			res.Violate("C16", "connect-refused", "teamserver-port", "the service endpoint refused a connection", w.Sim)
@@ -666,6 +673,36 @@ func (st *c16State) inject(a Action, pre []c16Entry) {
 			name := c16Ex2Name(c, k)
 			c.exc2[k] = c.sc.AddExC2(name, c16Ex2Endpoint(name))
 			res.Probe("svc-registrations")
+		}
+	case "sexc2taken":
+		if c := st.liveConn(st.slotOf(a)); c != nil {
+			// this connection's own External-C2 listener, or the profile's HTTP listener (as long as
+			// no operator touches listeners at the same time: the name must stay taken)
+			name := ""
+			if _, ok := c.exc2[c16abs(a.B)%2]; ok && a.C == 1 {
+				if acc, _, ans := c.sc.ExC2Reply(c.exc2[c16abs(a.B)%2]); acc && ans {
+					name = c16Ex2Name(c, c16abs(a.B)%2)
+				}
+			}
+			if name == "" {
+				quiet := true
+				for _, b := range st.curGroup {
+					if strings.HasPrefix(b.Kind, "l") {
+						quiet = false
+					}
+				}
+				for _, e := range pre {
+					if e.name == w.Cfg.HTTP[0].Name && quiet {
+						name = e.name
+					}
+				}
+			}
+			if name == "" {
+				return
+			}
+			ep := fmt.Sprintf("ep2-taken-%d.%d-%d", c.slot, c.gen, len(c.taken))
+			c.taken[ep] = c.sc.AddExC2(name, ep)
+			res.Probe("svc-exc2-under-taken-name")
 		}
 	case "sreq":
 		c := st.slots[st.slotOf(a)]
@@ -1296,6 +1333,18 @@ func (st *c16State) serviceRegistries(reg []c16Entry) {
 	}
 	for _, c := range st.conns {
 		c.sc.Pump()
+		var teps []string
+		for ep := range c.taken {
+			teps = append(teps, ep)
+		}
+		sort.Strings(teps)
+		for _, ep := range teps {
+			rid := c.taken[ep]
+			// a refused request leaves nothing behind - no route without a listener that owns it
+			if accepted, _, answered := c.sc.ExC2Reply(rid); (answered && !accepted || c.closed) && routes[ep] > 0 {
+				res.Violate("C16", "service-leftover", "exc2-endpoint-of-refused-request", fmt.Sprintf("service connection %s asked for an External-C2 listener under a name that was taken; the request was refused but route %q is registered", c.sc.Label, ep), w.Sim)
+			}
+		}
 		if !c.closed && !c.sc.Registered {
 			res.Violate("C16", "service-connect-failed", "correct-password", fmt.Sprintf("service connection %s presented the configured password and was not accepted", c.sc.Label), w.Sim)
 			continue
